@@ -122,16 +122,22 @@ def ref_gcp(x, g, lb, ub, B):
     told = 0.0
     tstar = None
     crossed = 0
+    fpp_first = None
+    last = dict(fpp=None, dt=0.0, dmax=0.0)
     for tb in bps + [np.inf]:
         fp = float(g @ d + d @ (B @ z))
         fpp = float(d @ (B @ d))
+        if fpp_first is None:
+            fpp_first = fpp
         if fp >= 0 or not np.any(d != 0):
             tstar = told
+            last = dict(fpp=fpp, dt=0.0, dmax=float(np.max(np.abs(d))) if d.size else 0.0)
             break
         dtmin = -fp / fpp if fpp > 0 else np.inf
         if dtmin < tb - told:
             z = z + dtmin * d
             tstar = told + dtmin
+            last = dict(fpp=fpp, dt=dtmin, dmax=float(np.max(np.abs(d))))
             break
         if not np.isfinite(tb):
             raise RuntimeError("model unbounded along the projected path")
@@ -151,7 +157,14 @@ def ref_gcp(x, g, lb, ub, B):
     for i in range(n):
         if pinned[i] or (t[i] == 0):
             pass
-    return dict(xcp=xcp, z=z, tstar=tstar, t=t, pinned=pinned, near=near, crossed=crossed)
+    # rounding amplification of an implementation that updates f' and f'' incrementally (as Algorithm CP does):
+    # both start at the size of the full direction and end at the size of the last segment's direction
+    accum = float(g @ g + np.abs(g) @ (np.abs(B) @ np.abs(z)))
+    if last["fpp"] is not None and last["fpp"] > 0:
+        amp = EPS * ((fpp_first or 0.0) / last["fpp"] * abs(last["dt"]) + accum / last["fpp"]) * last["dmax"]
+    else:
+        amp = 0.0
+    return dict(xcp=xcp, z=z, tstar=tstar, t=t, pinned=pinned, near=near, crossed=crossed, cancellation=amp)
 
 
 def ref_subspace(x, xc, g, lb, ub, B):
